@@ -20,10 +20,18 @@ inductive Result where
 
 def isIntegral (q : Rat) : Bool := q.den == 1
 
-/-- `str(int(v))` / `str(v)` for a present numeric cell; `reprF` is CPython's `repr(float)` -/
+/-- the canonical tags of the cells `float('inf')` / `float('-inf')` (the harness hands a non-finite double to the
+    model as `.other ("f:" ++ <its 16 hex digits>)`; NaN is a missing cell) -/
+def posInfTag : String := "f:7ff0000000000000"
+def negInfTag : String := "f:fff0000000000000"
+
+/-- `str(int(v))` / `str(v)` for a present numeric cell; `reprF` is CPython's `repr(float)` on finite doubles;
+    `str(float('inf')) = 'inf'`, `str(float('-inf')) = '-inf'` (an infinity is not integral —
+    `float('inf').is_integer()` is False — so a column holding one is never converted through `int`) -/
 def cellToStr (reprF : Rat → String) (asInt : Bool) : Cell → Cell
   | .int i => .str (toString i)
   | .flt q => if asInt then .str (toString q.floor) else .str (reprF q)
+  | .other t => if t == posInfTag then .str "inf" else if t == negInfTag then .str "-inf" else .other t
   | c => c
 
 /-- `series_to_str(series, inplace)` -/
